@@ -220,18 +220,23 @@ def has_int_sort(exprs):
     return False
 
 
-def discharge_all(obls, budget_ms=20000, procs=None, ideal_enabled=True):
-    """obls: list of sym.Obligation -> list of result dicts (same order)"""
+def make_job(o, ideal_enabled=True):
+    """serialise one obligation (done in the process that owns the z3 terms)"""
     from . import ideal as ideal_mod
-    jobs = []
-    for o in obls:
-        smt2 = to_smt2(o.hyps, o.goal)
-        hi = has_int_sort(list(o.hyps) + [o.goal])
-        payload = None
-        if ideal_enabled and not hi:
+    smt2 = to_smt2(o.hyps, o.goal)
+    hi = has_int_sort(list(o.hyps) + [o.goal])
+    payload = None
+    if ideal_enabled and not hi and ".cover@" not in o.name:
+        try:
             payload = ideal_mod.payload(o.hyps, o.goal)
-        b = o.meta.get("budget_ms", budget_ms)
-        jobs.append((o.name, smt2, b, hi, payload))
+        except RecursionError:
+            payload = None
+    return (o.name, smt2, o.meta.get("budget_ms"), hi, payload)
+
+
+def discharge_jobs(jobs, budget_ms=20000, procs=None):
+    """jobs: tuples from make_job -> list of result dicts (same order)"""
+    jobs = [(n, s, (b or budget_ms), hi, pl) for (n, s, b, hi, pl) in jobs]
     procs = procs or min(16, os.cpu_count() or 4)
     if len(jobs) <= 1 or procs == 1:
         return [solve_one(j) for j in jobs]
